@@ -65,6 +65,25 @@ func genPart(r *common.Rand) string {
 	return common.Pick(r, partPool)
 }
 
+// lone returns s with a lone UTF-16 surrogate (generalized 3-byte form: in a document it is
+// rendered as the escape \udXXX) inserted.
+func lone(r *common.Rand, s string) string {
+	sur := common.Pick(r, []string{"\xed\xa0\x80", "\xed\xb0\x80", "\xed\xaf\xbf", "\xed\xbf\xbf"})
+	i := 0
+	if len(s) > 0 {
+		i = r.Intn(len(s) + 1)
+		for i < len(s) && s[i]&0xC0 == 0x80 {
+			i++
+		}
+	}
+	return s[:i] + sur + s[i:]
+}
+
+// invalidUTF8 returns s made invalid as UTF-8 (a Go string a caller can pass).
+func invalidUTF8(r *common.Rand, s string) string {
+	return s + common.Pick(r, []string{"\xff", "\xc0\x80", "\xed\xa0\x80", "\x80", "\xf4\x90\x80\x80", "\xe2\x82"}) + common.Pick(r, []string{"", "z"})
+}
+
 func genUser(r *common.Rand) string {
 	s := genPart(r)
 	if strings.Contains(s, ":") && r.Intn(4) != 0 {
@@ -181,6 +200,31 @@ func genDoc(r *common.Rand, addrs []string) *jv {
 			"plugins", "Auths", "aliases", "x", "äö", "<html>", "", "features", "cliPluginsExtraDirs"})
 		d.set(k, genValue(r, 0))
 	}
+	// lone surrogate escapes (grammar-valid JSON that encoding/json reads lossily)
+	if r.Intn(12) == 0 {
+		run.Count("doc:lone-surrogate")
+		switch r.Intn(5) {
+		case 0:
+			d.set(lone(r, "key"), genValue(r, 1))
+		case 1:
+			d.set("credsStore", jstr(lone(r, "desk")))
+		case 2:
+			if a := d.get("auths"); a != nil && a.k == jObj {
+				a.set(lone(r, common.Pick(r, addrs)), genEntry(r))
+			}
+		case 3:
+			if a := d.get("auths"); a != nil && a.k == jObj {
+				e := &jv{k: jObj}
+				e.set("auth", jstr(b64("u:p")))
+				e.set("identitytoken", jstr(lone(r, "tok")))
+				a.set(common.Pick(r, addrs), e)
+			}
+		default:
+			v := &jv{k: jObj}
+			v.set(lone(r, "n"), jstr(lone(r, "v")))
+			d.set("nested", v)
+		}
+	}
 	// rare: documents Load must refuse
 	switch r.Intn(60) {
 	case 0:
@@ -234,9 +278,23 @@ func genHistory(r *common.Rand, nops int) histCase {
 			if r.Intn(4) == 0 {
 				o.A = genPart(r)
 			}
+			if r.Intn(12) == 0 { // strings that are not valid UTF-8
+				switch r.Intn(5) {
+				case 0:
+					o.Addr = invalidUTF8(r, o.Addr)
+				case 1:
+					o.R = invalidUTF8(r, o.R)
+				case 2:
+					o.A = invalidUTF8(r, o.A)
+				case 3:
+					o.P = invalidUTF8(r, o.P) // travels base64-encoded: must round trip
+				default:
+					o.U = invalidUTF8(r, o.U)
+				}
+			}
 			hc.Ops = append(hc.Ops, o)
 			if r.Intn(3) != 0 && i+1 < nops {
-				hc.Ops = append(hc.Ops, opx{Op: "G", Addr: a})
+				hc.Ops = append(hc.Ops, opx{Op: "G", Addr: o.Addr})
 				i++
 			}
 		case 4, 5:
